@@ -465,8 +465,10 @@ func c20Monitor(args []string) int {
 	defer os.RemoveAll(dir)
 	// another book is built and cached first in this process: every cache written below is then not the first
 	// one this process writes (whatever the save path keeps between two saves must not leak into the next file)
+	var preludeExp bookSnapshot
 	{
 		pg := genBookGames(rng, 2+rng.Intn(4))
+		preludeExp = expectedBook(pg)
 		ioutil.WriteFile(filepath.Join(dir, "prelude.txt"), []byte(renderSan(pg)), 0644)
 		if pb, err, hung := buildBook(dir, "prelude.txt", openingbook.San, true); hung || err != nil {
 			rep.Violate("cache-build-fails", map[string]interface{}{"collection": "prelude"}, fmt.Sprint(err, hung))
@@ -619,6 +621,29 @@ func c20Monitor(args []string) int {
 					rep.Violate("cache-roundtrip", in, "the cache written by the re-initialised object does not load as the source-built book")
 				}
 				rep.Stats["reset_then_initialize_cases"]++
+			}
+			os.Remove(cache)
+			// the same object serves two different books one after the other, both from intact caches
+			in := map[string]interface{}{"collection": c, "variant": "one object: book.txt from its cache, Reset(), prelude.txt from its cache", "seed": seed}
+			setCurrent(in)
+			rep.Cases++
+			if _, err, hung := buildBook(dir, "book.txt", openingbook.San, true); !hung && err == nil { // writes the cache
+				ob, err, hung := buildBook(dir, "book.txt", openingbook.San, true) // served from the cache
+				if hung || err != nil {
+					rep.Violate("cache-build-fails", in, fmt.Sprint(err, hung))
+				} else {
+					ob.Reset()
+					var ierr error
+					if !callWithWatchdog(30*time.Second, func() { ierr = ob.Initialize(dir, "prelude.txt", openingbook.San, true, false) }) {
+						rep.Violate("cache-damaged-hangs", in, "Initialize after Reset did not return within 30 s")
+						return rep.Emit()
+					}
+					if ierr != nil {
+						rep.Violate("cache-damaged-error", in, ierr.Error())
+					} else if d := diffSnap(preludeExp, snapshotOf(ob)); d != "" {
+						rep.Violate("cache-roundtrip", in, "the second book loaded into the re-used object: "+d)
+					}
+				}
 			}
 			os.Remove(cache)
 		}
